@@ -167,6 +167,7 @@ impl<const D: usize> DimensionMappings<D> {
     #[inline]
     pub(crate) fn map_linear_data_layout_to_transposed(
         &self,
+        source: &[(Dimension, usize); D],
         order: &[Dimension; D],
     ) -> [Dimension; D] {
         // In most simple cases the transformation for source -> requested is the same as
@@ -190,7 +191,18 @@ impl<const D: usize> DimensionMappings<D> {
         // sanity checked by constructing a TensorAccess from what we return and verifying that
         // the data is restored to memory order (assuming the original source was in the same
         // endianess as Tensor).
-        std::array::from_fn(|d| order[self.source_to_requested[d]])
+        // The order we are given lists the source's dimension names from most significant to
+        // least, which need not be the order of the source's shape (the source may itself be
+        // a TensorAccess or a TensorTranspose). So for each name in the order we find the
+        // dimension in the source's shape it refers to, and return the name that dimension
+        // is exposed under after transposing: the name at the position it was requested at.
+        std::array::from_fn(|d| {
+            let n = position_of(source, order[d]).unwrap_or_else(|| panic!(
+                "Source implementation contained dimension {} in data_layout that was not in the view_shape {:?} which breaks the contract of TensorRef",
+                order[d], source
+            ));
+            source[self.source_to_requested[n]].0
+        })
     }
 }
 
